@@ -2,7 +2,9 @@ package geom
 
 // Shared generators and oracles for the geom-package harnesses.
 
-func vCoord() float64 {
+func vCoord() float64 { return vFloatOrd() }
+
+func vCoordOld() float64 {
 	f := vFloat64()
 	vAssume(f == f)
 	return f
@@ -73,7 +75,10 @@ func vGeomAny(depth, maxM, maxV int) Geom {
 	case 5:
 		return vMultiPolygon(maxM, maxM, 0, maxV)
 	case 6:
-		return vBoundsBox()
+		// a *Bounds used as a geometry is a well-formed box
+		b := vBoundsBox()
+		vAssume(vAnd(b.Min.X <= b.Max.X, b.Min.Y <= b.Max.Y))
+		return b
 	default:
 		n := vChoose(maxM + 1)
 		gc := make(GeometryCollection, n)
